@@ -181,7 +181,11 @@ func TestSystemPredicate(t *testing.T) {
 						}
 					}
 				}
-				e, blk := sentinel.Entry(res, sentinel.WithTrafficType(tt), sentinel.WithBatchCount(batch))
+				eo := []sentinel.EntryOption{sentinel.WithTrafficType(tt)}
+				if !(batch == 1 && rapid.Bool().Draw(t, "plainCall")) {
+					eo = append(eo, sentinel.WithBatchCount(batch))
+				}
+				e, blk := sentinel.Entry(res, eo...)
 				c.Op("t=%d Entry(%s inbound=%v batch=%d) qps=%v conc=%d avgRt=%v load=%v cpu=%v overCap=%v -> blocked=%v", now, res, inbound, batch, qps, conc, avg, sysLoad, cpu, overCapacity, blk != nil)
 				if e != nil {
 					lives = append(lives, &lv{next, e, now, inbound, batch})
